@@ -132,9 +132,10 @@ func (idx *BigIndexWriter) Flush() error {
 		valueIdx := binary.BigEndian.Uint64(k[:8])
 		rowID := binary.BigEndian.Uint32(k[8:])
 
-		if currentValueIdx != valueIdx {
-			// bm == nil indicates that this is for the first valueIdx, so we don't need to do
-			// a full rotate yet.
+		// bm == nil indicates that this is for the first valueIdx. That one also needs a bitmap,
+		// even when it happens to equal the zero value of currentValueIdx.
+		if bm == nil || currentValueIdx != valueIdx {
+			// for the first valueIdx we don't need to do a full rotate yet.
 			if bm != nil {
 				var keyBuf [8]byte
 
